@@ -1,4 +1,4 @@
-import OrdModel.Proofs.IndexInsnumUloc
+import OrdModel.Proofs.IndexInsnumLists
 import OrdModel.Index.Run
 /-
 C05 — inscription numbers, sequence numbers and ids are dense, unique and consistent; jubilee.
@@ -33,6 +33,25 @@ theorem c05_update_location_partial {cfg : Cfg} {height time : Nat} {ir : Option
     Inv5T (tabs ls'.st) ∧
     ls'.st.entries.map (·.id) = ls.st.entries.map (·.id) ++ (if isNew fl then [fl.id] else []) :=
   uloc_inv5 h hinv hfresh
+
+/-- the loop of `index_inscriptions` over the flotsam that land in outputs preserves the invariant
+when the new ids of the list are pairwise distinct and not yet entry ids; the entry ids grow by
+exactly the new ids, in list (= offset) order -/
+theorem c05_apply_locations_partial (cfg : Cfg) (height time : Nat) (ir : Option (List (Nat × Nat)))
+    (locs : List (SatPoint × Flotsam × Bool)) (ls ls' : LocState)
+    (h : applyLocations cfg height time ir locs ls = .ok ls') (hinv : Inv5T (tabs ls.st))
+    (hnd : (newIds (locs.map (·.2.1))).Nodup)
+    (hfr : ∀ id ∈ newIds (locs.map (·.2.1)), id ∉ ls.st.entries.map (·.id)) :
+    Inv5T (tabs ls'.st) ∧ ls'.st.entries.map (·.id) = ls.st.entries.map (·.id) ++ newIds (locs.map (·.2.1)) :=
+  applyLocations_inv5 cfg height time ir locs ls ls' h hinv hnd hfr
+
+/-- the same for the flotsam lost at the coinbase -/
+theorem c05_apply_lost_partial (cfg : Cfg) (height time : Nat) (ir : Option (List (Nat × Nat))) (outputValue : Nat)
+    (fls : List Flotsam) (ls ls' : LocState)
+    (h : applyLost cfg height time ir outputValue fls ls = .ok ls') (hinv : Inv5T (tabs ls.st))
+    (hnd : (newIds fls).Nodup) (hfr : ∀ id ∈ newIds fls, id ∉ ls.st.entries.map (·.id)) :
+    Inv5T (tabs ls'.st) ∧ ls'.st.entries.map (·.id) = ls.st.entries.map (·.id) ++ newIds fls :=
+  applyLost_inv5 cfg height time ir outputValue fls ls ls' h hinv hnd hfr
 
 /-- the invariant gives: position = sequence number, `b + c = n`, every number is one of
 `0..b-1` or `-1..-c`, and no two entries share a number or an id -/
